@@ -81,7 +81,7 @@ CHECKS["C03"] = dict(
          "rejecting the first measure that differs or raises where it is defined; seeded random graphs of 6..10 nodes are validated the "
          "same way.",
     note="Defined() withdraws the clause where the library only forwards an igraph convention (closeness/average path length on "
-         "disconnected or directed graphs); random-walk betweenness has no definition yet (C01/C02/C04/C06 only); eigenvector "
+         "disconnected or directed graphs); Newman's random-walk betweenness is defined electrically (spanning-tree determinants, Defs_RandomWalk) on connected undirected graphs of up to 6 nodes and by closed laws on trees / complete graphs beyond; Arenas' variant and the n.s.i. random-walk measures have no definition (C01/C02/C04/C06 only); eigenvector "
          "centrality and PageRank are decided as residual conditions.  Fixed point 10^-6, tolerance 4e-5.",
     ref="6/C03")
 
